@@ -148,14 +148,14 @@ Proof. intros H ->. unfold ShapeKept in H. cbn in H. destruct H as [->| ->]; cbn
 Lemma node_canon w ff n va c (rec : id -> option etree) :
   (forall c0 t, In (CElem c0) (n_content n) -> rec c0 = Some t ->
      CANON t /\ exists cn, w_nodes w c0 = Some cn /\ e_name t = n_name cn /\ e_type t = n_type cn) ->
-  Project.node_ok T check_fn ver w ff n -> NodeCanonAt T tab_el tab_at tab_en check_fn float_fmt float_parse ver va w ff n ->
+  node_struct T ver w ff n -> NodeCanonAt T tab_el tab_at tab_en check_fn float_fmt float_parse ver va w ff n ->
   proj_items rec w ff (n_content n) = Some c ->
   CommentsOk (n_comment n) /\ (exists nm, ElemNameOk tab_el (n_name n) nm) /\
   AttrsOk T tab_at tab_en check_fn float_fmt float_parse va (n_type n) (map (fun a => (fst a, to_pc (snd a))) (n_attrs n)) /\
   exists mode named, content_mode T (n_type n) = Val mode /\ ShapeOk mode c /\ CHILDREN (n_type n) mode [] [] c /\
     is_named_in_version T (n_type n) ver = Val named /\ (named = true -> head_short T c = true).
 Proof.
-  intros Hrec (_ & _ & (items & HI & HO) & Hty & Hsn) (HCm & HNm & HAt & (mode & kitems & named & HMo & HK & HSh & HNa & HFirst) & HTx) EPI.
+  intros Hrec ((items & HI & HO) & Hty & Hsn) (HCm & HNm & HAt & (mode & kitems & named & HMo & HK & HSh & HNa & HFirst) & HTx) EPI.
   split; [exact HCm|]. split; [exact HNm|]. split; [exact HAt|]. exists mode, named. split; [exact HMo|].
   destruct (kept_items_sub w ff _ _ HI) as (kitems' & HK' & SK). rewrite HK in HK'. injection HK' as <-.
   pose proof (ordered_subseq T (n_type n) ver items kitems SK HO) as HOK.
@@ -169,7 +169,7 @@ Qed.
 
 (* ---- every element below the root ---- *)
 Theorem proj_canon w ff root :
-  Project.WorldOK T check_fn ver w ff -> WorldCanon T tab_el tab_at tab_en check_fn float_fmt float_parse ver w ff root ->
+  WorldStruct T ver w ff -> WorldCanon T tab_el tab_at tab_en check_fn float_fmt float_parse ver w ff root ->
   forall fuel i t, i <> root -> proj fuel w ff i = Some t ->
   CANON t /\ exists n, w_nodes w i = Some n /\ e_name t = n_name n /\ e_type t = n_type n.
 Proof.
@@ -187,8 +187,8 @@ Proof.
 Qed.
 
 (* ---- the root ---- *)
-Theorem proj_rootcanon w ff root :
-  Project.WorldOK T check_fn ver w ff -> WorldCanon T tab_el tab_at tab_en check_fn float_fmt float_parse ver w ff root ->
+Theorem proj_rootcanon_struct w ff root :
+  WorldStruct T ver w ff -> WorldCanon T tab_el tab_at tab_en check_fn float_fmt float_parse ver w ff root ->
   RootHeader strict T tab_el tab_at tab_en check_fn float_fmt float_parse ver w ff root ->
   forall fuel t, proj fuel w ff root = Some t ->
   RootCanon strict T tab_el tab_at tab_en check_fn float_fmt float_parse ver t.
@@ -204,6 +204,16 @@ Proof.
     as (A & (nm & B) & C & mode & named & D & E & F & G & K).
   rewrite Hname, Htype in *. eapply root_canon; eauto.
 Qed.
+
+Lemma worldok_struct w ff : Project.WorldOK T check_fn ver w ff -> WorldStruct T ver w ff.
+Proof. intros OK i n Hn. destruct (OK i n Hn) as (_ & _ & A & B & C). repeat split; auto. Qed.
+
+Theorem proj_rootcanon w ff root :
+  Project.WorldOK T check_fn ver w ff -> WorldCanon T tab_el tab_at tab_en check_fn float_fmt float_parse ver w ff root ->
+  RootHeader strict T tab_el tab_at tab_en check_fn float_fmt float_parse ver w ff root ->
+  forall fuel t, proj fuel w ff root = Some t ->
+  RootCanon strict T tab_el tab_at tab_en check_fn float_fmt float_parse ver t.
+Proof. intros OK. apply proj_rootcanon_struct. apply worldok_struct. exact OK. Qed.
 
 End Canon.
 
